@@ -270,6 +270,24 @@ func C07(c *core.Ctx) error {
 			scns = append(scns, c07scn{id: fmt.Sprintf("configs len=%d all=%v", n, all), cfg: root, files: map[string]string{"p/p.go": c07src, "q/q.go": c07q}, expect: exp})
 		}
 	}
+	{ // configured packages that share their package NAME (different import paths) with different selection settings:
+		// each package is selected by its own settings
+		srcOf := func(name string) string {
+			return "package api\n\ntype Gamma interface{ G() }\n\ntype Delta interface{ D() }\n\ntype " + name + " interface{ Own() }\n"
+		}
+		files := map[string]string{"s1/api/a.go": srcOf("OnlyS1"), "s2/api/a.go": srcOf("OnlyS2"), "s3/api/a.go": srcOf("OnlyS3"), "s4/api/a.go": srcOf("OnlyS4")}
+		S := func(k int) string { return fmt.Sprintf("%s/s%d/api", core.ModPath, k) }
+		root := c07baseRoot(probe)
+		root["packages"] = core.M{
+			S(1): core.M{"config": core.M{"all": true}},
+			S(2): core.M{"interfaces": core.M{"Gamma": core.M{}}},
+			S(3): core.M{"config": core.M{"include-interface-regex": "^(Delta|OnlyS3)$"}},
+			S(4): core.M{"config": core.M{"include-interface-regex": ".*", "exclude-interface-regex": "^Only"}},
+		}
+		exp := []string{S(1) + "|Delta|MockDelta", S(1) + "|Gamma|MockGamma", S(1) + "|OnlyS1|MockOnlyS1", S(2) + "|Gamma|MockGamma", S(3) + "|Delta|MockDelta", S(3) + "|OnlyS3|MockOnlyS3", S(4) + "|Delta|MockDelta", S(4) + "|Gamma|MockGamma"}
+		sort.Strings(exp)
+		scns = append(scns, c07scn{id: "four configured packages named api with different selection settings", cfg: root, files: files, expect: exp})
+	}
 	{ // configs entries that differ ONLY in the directory (same file name, same struct name), or only in the file name,
 		// or only in the package name: still one mock per entry
 		for _, only := range []string{"dir", "filename", "pkgname+dir"} {
